@@ -900,4 +900,48 @@ theorem findByDirection_both (s : Refs) (fuel n : Nat) (hi : Inv s) :
   · intro t b; rw [List.take_left']; exact m1 t b; rfl
   · intro t a; rw [List.drop_left']; exact m2 t a; rfl
 
+/-! ### A dead branch of `reference_type_matches` -/
+
+/-- the walk without its first test (`if *ref_subtype == current`) -/
+def subtypeSearchNoHead (s : Refs) (sub : Nat) : Nat → List Nat → Option Bool
+  | 0, _ => none
+  | _ + 1, [] => some false
+  | fuel + 1, cur :: rest =>
+    match s.fwd.get cur with
+    | some l =>
+      let subtypes := (l.filter (fun r => r.1 == hasSubtype)).map (fun r => r.2)
+      if subtypes.contains sub then some true
+      else subtypeSearchNoHead s sub fuel (subtypes.reverse ++ rest)
+    | none => subtypeSearchNoHead s sub fuel rest
+
+/-- **The test `ref_subtype == current` inside the loop is never true**: the stack starts as `[ty]` with
+`ty ≠ sub` and a type is pushed only after `subtypes.contains(ref_subtype)` was false, so the walk
+gives the same answer without that test (this is why mutating its result is not observable). -/
+theorem subtypeSearch_head_test_dead (s : Refs) (sub : Nat) : ∀ fuel stack, sub ∉ stack →
+    subtypeSearch s sub fuel stack = subtypeSearchNoHead s sub fuel stack := by
+  intro fuel
+  induction fuel with
+  | zero => intro stack _; rfl
+  | succ fuel ih =>
+    intro stack hn
+    cases stack with
+    | nil => rfl
+    | cons cur rest =>
+      have hc : sub ≠ cur := fun e => hn (e ▸ List.mem_cons_self)
+      have hr : sub ∉ rest := fun h => hn (List.mem_cons_of_mem _ h)
+      unfold subtypeSearch subtypeSearchNoHead
+      rw [if_neg hc]
+      cases hg : s.fwd.get cur with
+      | none => exact ih rest hr
+      | some l =>
+        simp only []
+        split
+        · rfl
+        · rename_i hcon
+          apply ih
+          intro hm
+          rcases List.mem_append.1 hm with h | h
+          · exact hcon (by simpa using h)
+          · exact hr h
+
 end OpcuaVerif.C28
